@@ -212,7 +212,10 @@ fn eval_unbiased_wide<T: Int + SampleUniform>(c: &(Pat, Pat, Pat, Pat), obs: &mu
     let w = T::W as u64;
     let nb = (T::W / 8) as usize;
     let size = zhi.sub(&zlo).add_i(1);
-    if size == Z::pow2(w) || size.bit_len() + 6 < w {
+    // the number of candidate words per output value is about 2^W / size: enumerate when it is at
+    // most 65 (any width) or at most 2^16 + 1 (types of at most 32 bits)
+    let slack = if w <= 32 { 16 } else { 6 };
+    if size == Z::pow2(w) || size.bit_len() + slack < w {
         return Ok(());
     }
     obs.nt_if(size.trailing_zeros().map_or(true, |tz| tz + 1 != size.bit_len()));
@@ -247,7 +250,7 @@ fn eval_unbiased_wide<T: Int + SampleUniform>(c: &(Pat, Pat, Pat, Pat), obs: &mu
             }
         }
     }
-    obs.label("wide range: all candidate words of 6 output values enumerated");
+    obs.label(if size.bit_len() + 6 < w { "medium range (<= 32-bit type): up to 2^16 candidate words of 6 output values enumerated" } else { "wide range: all candidate words of 6 output values enumerated" });
     Ok(())
 }
 
@@ -263,6 +266,54 @@ fn wide_ranges(sh: Shape) -> BoxedStrategy<(Pat, Pat, Pat, Pat)> {
             (Pat(zlo.to_le_wrapped(nb)), Pat(zhi.to_le_wrapped(nb)), h1, h2)
         })
         .boxed()
+}
+
+/// ranges of size 2^(W-1-k) .. 2^(W-k) for k up to 15 (types of at most 32 bits)
+fn medium_ranges(sh: Shape) -> BoxedStrategy<(Pat, Pat, Pat, Pat)> {
+    let w = sh.bits() as u64;
+    let nb = sh.bytes;
+    (gen::pattern(sh), gen::pattern(sh), 6u64..15, gen::pattern(sh), gen::pattern(sh), any::<bool>())
+        .prop_map(move |(lo, sz, k, h1, h2, signed_span)| {
+            let k = k.min(w - 2);
+            let size = Z::from_le_unsigned(&sz.0).mod_2k(w - 1 - k).add(&Z::pow2(w - 1 - k));
+            let zlo = if signed_span { Z::pow2(w - 1).sub(&size.shr_floor(1)) } else { Z::from_le_unsigned(&lo.0).mod_2k(w).divrem_trunc(&Z::pow2(w).sub(&size).add_i(1)).1 };
+            let zhi = zlo.add(&size).add_i(-1);
+            (Pat(zlo.to_le_wrapped(nb)), Pat(zhi.to_le_wrapped(nb)), h1, h2)
+        })
+        .boxed()
+}
+
+/// thorough tier only: the complete 2^24 word space of a 24-bit type for a few ranges
+fn eval_unbiased_all_words24<T: Int + SampleUniform>(c: &(Pat, Pat), obs: &mut Obs) -> Result<(), String> {
+    let (p, q): (T, T) = (ld(&c.0), ld(&c.1));
+    let (lo, hi, zlo, zhi) = if p.z() <= q.z() { (p, q, p.z(), q.z()) } else { (q, p, q.z(), p.z()) };
+    assert!(T::W == 24);
+    let size = zhi.sub(&zlo).add_i(1).to_u64().unwrap() as usize;
+    if size > 1 << 12 {
+        return Ok(());
+    }
+    obs.nt();
+    for api in [Api::UniformIncl, Api::SingleIncl] {
+        let mut counts = vec![0u32; size];
+        for v in 0..(1u32 << 24) {
+            let script = v.to_le_bytes();
+            let mut rng = ScriptRng::new(&script[..3]);
+            let r = call(api, lo, hi, &mut rng);
+            if rng.consumed() == 3 {
+                let off = r.z().sub(&zlo).to_u64().filter(|&i| (i as usize) < size);
+                match off {
+                    Some(i) => counts[i as usize] += 1,
+                    None => return Err(format!("{:?}: word {v} gives {:?}, outside [{:?}, {:?}]", api, r.z(), zlo, zhi)),
+                }
+            }
+        }
+        vlib::runner::count_cmp(1);
+        let first = counts[0];
+        if first == 0 || counts.iter().any(|&n| n != first) {
+            return Err(format!("{:?} on [{:?}, {:?}]: preimage counts over all 2^24 words range from {} to {}", api, zlo, zhi, counts.iter().min().unwrap(), counts.iter().max().unwrap()));
+        }
+    }
+    Ok(())
 }
 
 fn jobs_for<U, I>(jobs: &mut Vec<Job>)
@@ -289,6 +340,24 @@ where
         ctx.run("u", ctx.budget(q(QUICK), FACTOR), range_cases(sh), eval_range::<U>);
         ctx.run("i", ctx.budget(q(QUICK), FACTOR), range_cases(sh), eval_range::<I>);
     }));
+    if U::W > 16 && U::W <= 32 {
+        jobs.push(Job::new(job_name::<U>("unbiased/medium"), move |ctx| {
+            ctx.run("u", ctx.budget(12, 10), medium_ranges(sh), eval_unbiased_wide::<U>);
+            ctx.run("i", ctx.budget(12, 10), medium_ranges(sh), eval_unbiased_wide::<I>);
+        }));
+    }
+    if U::W == 24 {
+        jobs.push(Job::new(job_name::<U>("unbiased/exhaustive24"), move |ctx| {
+            if ctx.tier() == vlib::Tier::Thorough {
+                let small = || (gen::pattern(sh), prop_oneof![Just(3u64), Just(7), Just(10), Just(100), Just(1000), 2u64..4096]).prop_map(move |(lo, size)| {
+                    let zlo = Z::from_le_unsigned(&lo.0).mod_2k(23);
+                    (Pat(zlo.to_le_wrapped(sh.bytes)), Pat(zlo.add(&Z::from_u64(size)).add_i(-1).to_le_wrapped(sh.bytes)))
+                });
+                ctx.run("u", 3, small(), eval_unbiased_all_words24::<U>);
+                ctx.run("i", 3, small(), eval_unbiased_all_words24::<I>);
+            }
+        }));
+    }
     if U::W > 16 && U::W <= 1100 {
         jobs.push(Job::new(job_name::<U>("unbiased/wide"), move |ctx| {
             ctx.run("u", ctx.budget(q(QUICK / 10), FACTOR), wide_ranges(sh), eval_unbiased_wide::<U>);
@@ -341,7 +410,7 @@ fn main() {
     runner::main(
         Property {
             id: "C20",
-            rule: "The RNG is a ScriptRng: its output stream is a byte script chosen by the generator (then zeros), and it records how many bytes were drawn, so words are chosen, not left to chance. (1) Standard / Fill: for any script, gen::<T>() has the successive BYTES-sized little-endian chunks of the script as its pattern (hence every value is reachable), a slice fill of k elements consumes k*BYTES bytes and equals k successive gen() calls, Fill::try_fill == try_fill_slice. (2) Membership and exact mapping for gen_range(lo..hi), gen_range(lo..=hi), Uniform::new/new_inclusive + sample, sample_single(_inclusive): bounds from structured pairs sorted on the reference side and ranges of size 1, 2, 2^k, 2^k+-1, 2^W-1 and the full range, signed ranges spanning zero; the result lies in the range and equals lo + floor(v*range/2^W) for the last (accepted) word v. (3) Unbiasedness, exhaustive at 8 bits (every one of the 32 896 ranges x all 256 words x 2 samplers, U and I) and over all 65 536 words for special + generated ranges of the four 16-bit types: among ACCEPTED words (those after which no further word is drawn) every value of the range has the same number (>= 1) of preimages. (4) Unbiasedness above 16 bits (the leading_zeros zone branch): for ranges of size >= 2^(W-6) all (<= 65) candidate words of six output values (0, 1, range-1, range/2, two generated) are enumerated and must have equal, non-zero accepted counts. NON-TRIVIAL: range size not a power of two, or full range / size 1; scripts of at least one word. distinct = distinct (profile, job, inputs) by 64-bit hash.",
+            rule: "The RNG is a ScriptRng: its output stream is a byte script chosen by the generator (then zeros), and it records how many bytes were drawn, so words are chosen, not left to chance. (1) Standard / Fill: for any script, gen::<T>() has the successive BYTES-sized little-endian chunks of the script as its pattern (hence every value is reachable), a slice fill of k elements consumes k*BYTES bytes and equals k successive gen() calls, Fill::try_fill == try_fill_slice. (2) Membership and exact mapping for gen_range(lo..hi), gen_range(lo..=hi), Uniform::new/new_inclusive + sample, sample_single(_inclusive): bounds from structured pairs sorted on the reference side and ranges of size 1, 2, 2^k, 2^k+-1, 2^W-1 and the full range, signed ranges spanning zero; the result lies in the range and equals lo + floor(v*range/2^W) for the last (accepted) word v. (3) Unbiasedness, exhaustive at 8 bits (every one of the 32 896 ranges x all 256 words x 2 samplers, U and I) and over all 65 536 words for special + generated ranges of the four 16-bit types: among ACCEPTED words (those after which no further word is drawn) every value of the range has the same number (>= 1) of preimages. (4) Unbiasedness above 16 bits (the leading_zeros zone branch): for ranges of size >= 2^(W-6) (any width up to 1088 bits) and of size >= 2^(W-16) on the 24- and 32-bit types all (<= 65 resp. <= 65 537) candidate words of six output values (0, 1, range-1, range/2, two generated) are enumerated and must have equal, non-zero accepted counts; in the thorough tier the complete 2^24 word space of the 24-bit types is enumerated for a few small ranges. NON-TRIVIAL: range size not a power of two, or full range / size 1; scripts of at least one word. distinct = distinct (profile, job, inputs) by 64-bit hash.",
             assumptions: &[
                 "a word is 'accepted' iff the sampler draws no further word after it (observed through the byte counter of the scripted RNG)",
                 "for ranges smaller than 2^(W-6) on types wider than 16 bits the number of preimages per value is too large to enumerate; there only membership and the exact mapping are checked",
